@@ -30,7 +30,7 @@ let () =
       | ln :: "fn" :: rest when field rest "pre" <> "" && field rest "pre" <> "?" ->
         let ints s = List.map int_of_string (String.split_on_char ',' s) in
         (match ints (field rest "pre") with
-         | [cur; lop; eoff; cache; ddd; dend; rc; att; vm; fo] ->
+         | [cur; lop; eoff; cache; ddd; dend; rc; att; vm; fo; wr; own] ->
            let blocks =
              let b = field rest "blocks" in
              if b = "" then [] else
@@ -41,7 +41,7 @@ let () =
                       last_op = (match lop with 1 -> OpSeek | 2 -> OpWrite | 3 -> OpRead | _ -> OpUnknown);
                       end_off = z eoff; cache = (cache = 1); dirty_dd = (ddd = 1); dirty_end = (dend = 1);
                       blocks = blocks; cursor = O; refcount = z rc; attach = z att; vmod = (vm = 1); vcalls = O;
-                      file_open = (fo = 1) } in
+                      file_open = (fo = 1); writable = (wr = 1); own_aid = (own = 1) } in
            let fn = field rest "f" and arg = int_of_string (field rest "arg") in
            let md = field rest "mode" and k = int_of_string (field rest "k") in
            let prog = match fn with
